@@ -105,6 +105,9 @@ func build(prop string, c propCfg, cover bool) (string, error) {
 	bdir := filepath.Join(verifDir, ".build")
 	os.MkdirAll(bdir, 0o755)
 	out := filepath.Join(bdir, strings.ToLower(prop)+".test")
+	if cover {
+		out = filepath.Join(bdir, strings.ToLower(prop)+".cover.test")
+	}
 	args := []string{"test", "-c", "-tags", "verif", "-vet=off", "-o", out}
 	if c.race {
 		args = append(args, "-race")
@@ -125,6 +128,9 @@ func build(prop string, c propCfg, cover bool) (string, error) {
 		defer os.Remove(mf)
 		defer os.Remove(strings.TrimSuffix(mf, ".mod") + ".sum")
 		out = filepath.Join(bdir, fmt.Sprintf("%s-alt-%d.test", strings.ToLower(prop), os.Getpid()))
+		if cover {
+			out = filepath.Join(bdir, fmt.Sprintf("%s-alt-%d.cover.test", strings.ToLower(prop), os.Getpid()))
+		}
 		args[6] = out
 		args = append(args, "-modfile="+mf)
 	}
@@ -297,7 +303,7 @@ func statementCoverage(wdir, prop string) map[string]any {
 		"anchored_files":      anchored,
 		"anchored_total":      fmt.Sprintf("%d/%d statements (%.1f%%)", ah, at, 100*float64(ah)/float64(max(at, 1))),
 		"all_gokrb5_packages": fmt.Sprintf("%d/%d statements (%.1f%%)", oh, ot, 100*float64(oh)/float64(max(ot, 1))),
-		"note":                "statements executed at least once by this run's workload, measured with go test -cover -coverpkg=github.com/jcmturner/gokrb5/v8/...; children that died (and C04's executor processes) write no profile, so the figures are lower bounds",
+		"note":                "statements executed at least once by the quick-tier workload of this seed, measured in a separate pass with a binary built with go test -cover -coverpkg=github.com/jcmturner/gokrb5/v8/... (the deciding thorough run uses the plain binary: coverage counters slow tight loops 5-8x); children that died (and C04's executor processes) write no profile; lower bounds for the thorough workload",
 	}
 }
 
@@ -434,18 +440,21 @@ func main() {
 	// the thorough tier measures which statements of gokrb5 the workload executed (go test -cover over all gokrb5 packages)
 	// (not for the race-detector builds: every coverage counter update becomes an instrumented atomic access, C02's thorough
 	// tier then ran nine times longer and was killed at 37 GB)
+	// The deciding run uses the plain binary. Coverage counters cost tight loops a factor of 5-8 on 16 cores (C17: 350 s ->
+	// 2630 s), so the instrumented binary runs afterwards, once, on the quick-tier workload of the same seed: its verdicts are
+	// not used, only the profiles (statement coverage saturates long before the thorough workload ends; the figures are lower
+	// bounds for the thorough run).
 	cover := tier == "thorough" && replay == "" && os.Getenv("VERIF_NOCOVER") == "" && !c.race
-	bin, err := build(prop, c, cover)
-	if err != nil && cover {
-		cover = false
-		bin, err = build(prop, c, false)
-	}
+	bin, err := build(prop, c, false)
 	if err != nil {
 		fmt.Printf("INCONCLUSIVE property=%s reason=%s\n", prop, strings.ReplaceAll(err.Error(), "\n", " | "))
 		os.Exit(2)
 	}
+	coverBin := ""
 	if cover {
-		extraEnv = append(extraEnv, "VERIF_COVER=1")
+		if coverBin, err = build(prop, c, true); err != nil {
+			cover = false
+		}
 	}
 
 	// run shards
@@ -468,6 +477,30 @@ func main() {
 		}(i)
 	}
 	wg.Wait()
+	if cover {
+		cdir := filepath.Join(wdir, "coverage-pass")
+		os.RemoveAll(cdir)
+		os.MkdirAll(cdir, 0o755)
+		var cw sync.WaitGroup
+		for i := 0; i < c.shards; i++ {
+			cw.Add(1)
+			go func(i int) {
+				defer cw.Done()
+				env := append(append([]string{}, extraEnv...), "VERIF_COVER=1")
+				for attempt := 0; attempt < 6; attempt++ {
+					so := runShard(coverBin, prop, "quick", seed, i, c.shards, cdir, timeout, env, attempt)
+					if !so.crashed || !c.restartShards || so.lastCase == "" {
+						break
+					}
+					env = append(append([]string{}, extraEnv...), "VERIF_COVER=1", "VERIF_SKIP_THROUGH="+so.lastCase)
+				}
+			}(i)
+		}
+		cw.Wait()
+		if altRepo {
+			os.Remove(coverBin)
+		}
+	}
 
 	// merge
 	merged := vh.Result{Prop: prop, Tier: tier, Counts: map[string]int64{}, Violations: map[string]*vh.Violation{},
@@ -638,7 +671,7 @@ func main() {
 		cov[k] = v
 	}
 	if cover {
-		if sc := statementCoverage(wdir, prop); sc != nil {
+		if sc := statementCoverage(filepath.Join(wdir, "coverage-pass"), prop); sc != nil {
 			cov["statement_coverage"] = sc
 		}
 	} else {
